@@ -44,4 +44,17 @@ prop("C07",
      runs=[dict(name="h_mbuff", sources=["harness/h_mbuff.c"], profile="asan", wraps=["read"],
                 args={"quick": ["--L=3", "--sigma=3"], "thorough": ["--L=5", "--sigma=4"]})],
      deadline={"quick": 200, "thorough": 3000})
+
+
+prop("C02",
+     level="model_checking",
+     technique="explicit-state BFS over list-interface histories on the three real classes vs one reference sequence with identities and NULL holes; link invariants read from the public structs",
+     rule="E1 per class (array, linked_list, dlinked_list): BFS over histories of {append, prepend, insert_at over window(n), remove, remove_at over window(n), reverse} "
+          "with elements a,b,c up to the size cap, dedup by the label sequence (holes included); every op from every reachable sequence, every query probed in "
+          "every new state (count, get, index, find, contains, to_array, iterator, dup, show); the same model decides all three classes, so they are pairwise interchangeable; "
+          "non-trivial = distinct reachable sequences",
+     bounds={"quick": "size cap 4, fixpoint", "thorough": "size cap 6, fixpoint"},
+     runs=[dict(name="h_list", sources=["harness/h_list.c"], profile="asan",
+                args={"quick": ["--S=4"], "thorough": ["--S=6"]})],
+     deadline={"quick": 200, "thorough": 3000})
 NOT_CLAIMED = {}
